@@ -60,6 +60,15 @@ def local_names(stmt):
     return names
 
 
+def name_doubles_as_table(stmt):
+    """a local name that is also the bare name of an unaliased table of the statement ('FROM (SELECT tu.c FROM tu) AS tu'): the scope-blind renaming
+    below would rewrite the qualifiers that mean the table, so it is not applied to such statements (per-scope reuse and toggles are)"""
+    local = {n.lower() for n in local_names(stmt)}
+    bare = []
+    ir.map_ir(stmt, lambda x: (bare.append(x.name.lower()), x)[1] if isinstance(x, ir.T) and not x.alias else x)
+    return bool(local & set(bare))
+
+
 def rename(stmt, mapping):
     m = {k.lower(): v for k, v in mapping.items()}
     g = lambda n: m.get(n.lower(), n) if n else n  # noqa: E731
@@ -157,7 +166,29 @@ def toggle_table_aliases(stmt, picks):
         return ir.CteInsert(tuple((n, sel(c)) for n, c in s.ctes), dataclasses.replace(s.ins, q=sel(s.ins.q)))
     if getattr(s, "q", None) is not None:
         return dataclasses.replace(s, q=sel(s.q))
+    p = _pseudo_select(s)
+    if p is not None:
+        return _from_pseudo(s, sel(p))
     return s
+
+
+def _pseudo_select(s):
+    """UPDATE ... FROM / MERGE ... USING as a query block: the SET / INSERT expressions are its items, FROM / USING its FROM clause, WHERE / ON its
+    predicate (the target and its alias are in scope too, but carry no alias the rewrite touches)"""
+    if isinstance(s, ir.Update) and s.frm:
+        return ir.Select(tuple(ir.Item(e) for _, e in s.sets), tuple(s.frm), s.where)
+    if isinstance(s, ir.Merge):
+        return ir.Select(tuple(ir.Item(e) for _, e in tuple(s.upd) + tuple(s.ins)), (ir.FromGroup(s.src),), s.on)
+    return None
+
+
+def _from_pseudo(s, r):
+    if isinstance(s, ir.Update):
+        return dataclasses.replace(s, sets=tuple((c, i.e) for (c, _), i in zip(s.sets, r.items)), frm=tuple(r.frm), where=r.where)
+    n = len(s.upd)
+    exprs = [i.e for i in r.items]
+    return dataclasses.replace(s, src=r.frm[0].first, on=r.where, upd=tuple((c, e) for (c, _), e in zip(s.upd, exprs[:n])),
+                               ins=tuple((c, e) for (c, _), e in zip(s.ins, exprs[n:])))
 
 
 def rename_per_scope(stmt, include_derived=True):
@@ -212,7 +243,29 @@ def rename_per_scope(stmt, include_derived=True):
         return ir.CteInsert(tuple((n, sel(c)) for n, c in s.ctes), dataclasses.replace(s.ins, q=sel(s.ins.q)))
     if getattr(s, "q", None) is not None:
         return dataclasses.replace(s, q=sel(s.q))
+    p = _pseudo_select(s)
+    if p is not None:
+        return _from_pseudo(s, sel(p))
     return s
+
+
+def _pseudo_select(s):
+    """UPDATE ... FROM / MERGE ... USING as a query block: the SET / INSERT expressions are its items, FROM / USING its FROM clause, WHERE / ON its
+    predicate (the target and its alias are in scope too, but carry no alias the rewrite touches)"""
+    if isinstance(s, ir.Update) and s.frm:
+        return ir.Select(tuple(ir.Item(e) for _, e in s.sets), tuple(s.frm), s.where)
+    if isinstance(s, ir.Merge):
+        return ir.Select(tuple(ir.Item(e) for _, e in tuple(s.upd) + tuple(s.ins)), (ir.FromGroup(s.src),), s.on)
+    return None
+
+
+def _from_pseudo(s, r):
+    if isinstance(s, ir.Update):
+        return dataclasses.replace(s, sets=tuple((c, i.e) for (c, _), i in zip(s.sets, r.items)), frm=tuple(r.frm), where=r.where)
+    n = len(s.upd)
+    exprs = [i.e for i in r.items]
+    return dataclasses.replace(s, src=r.frm[0].first, on=r.where, upd=tuple((c, e) for (c, _), e in zip(s.upd, exprs[:n])),
+                               ins=tuple((c, e) for (c, _), e in zip(s.ins, exprs[n:])))
 
 
 def _map_no_query(node, f):
@@ -297,6 +350,8 @@ def alias_ambiguities(stmt):
         s = s.ins
     if getattr(s, "q", None) is not None:
         sel(s.q, [])
+    elif _pseudo_select(s) is not None:
+        sel(_pseudo_select(s), [])
     kinds = set()
     for sid1, path1, rels1 in scopes:
         for x, _ in rels1:
@@ -378,6 +433,9 @@ def _worker(payload):
             if not names:
                 res_.discard("no_local_names")
                 return None
+            if name_doubles_as_table(stmt):
+                res_.discard("local_name_doubles_as_table_name")
+                return None
             pool_name = sorted(POOLS)[psel % len(POOLS)]
             pool = POOLS[pool_name]
             if pool_name == "used_tables":
@@ -458,7 +516,7 @@ def _skeleton_worker(payload):
     derived tables inside derived tables that per-scope reuse names identically, with pass-through column names"""
     shard, nshards, ctx = payload
     res = runner.Res()
-    crafted = [(st_, ["crafted", "nest=2"]) for st_ in crafted_statements()]
+    crafted = [(st_, ["crafted", "nest=2"]) for st_ in crafted_statements()] + [(st_, ["crafted"] + f) for st_, f in C02.update_merge_statements()]
     for idx, (stmt, feats) in enumerate(itertools.chain(crafted, C02.skeletons())):
         if idx % nshards != shard:
             continue
@@ -474,7 +532,7 @@ def _skeleton_worker(payload):
         names = local_names(stmt)
         variants = [("reuse_per_scope", rename_per_scope(stmt, True), None), ("reuse_per_scope_tables_only", rename_per_scope(stmt, False), None),
                     ("toggle_as", toggle_as(stmt), None)]
-        if names and len(names) <= len(MIXED):
+        if names and len(names) <= len(MIXED) and not name_doubles_as_table(stmt):
             mp = {n: MIXED[i] for i, n in enumerate(names)}
             variants.append(("rename", rename(stmt, mp), mp))
         sql = ir.r_stmt(stmt)
